@@ -112,10 +112,14 @@ func (v *collator_[V]) GetMaximum() int {
 // Public
 
 func (v *collator_[V]) CompareValues(first V, second V) bool {
+	var depth = v.depth_
+	defer func() { v.depth_ = depth }() // A panic must not leave the depth raised.
 	return v.compareValues(ref.ValueOf(first), ref.ValueOf(second))
 }
 
 func (v *collator_[V]) RankValues(first V, second V) Rank {
+	var depth = v.depth_
+	defer func() { v.depth_ = depth }() // A panic must not leave the depth raised.
 	return v.rankValues(ref.ValueOf(first), ref.ValueOf(second))
 }
 
